@@ -52,7 +52,12 @@ pub fn score_of(sc: &Score, pmer: &[u8]) -> usize {
             let b = bij(rank(&rc(pmer)), 2 * p, *seed);
             a.min(b) as usize
         }
-        Score::Const(c) => *c as usize,
+        // the largest constants stand for the extreme score values
+        Score::Const(c) => match *c {
+            65535 => usize::MAX,
+            65534 => usize::MAX - 1,
+            x => x as usize,
+        },
         Score::Mod(m) => (rank(pmer) % (*m as u64).max(1)) as usize,
         Score::AtCount => pmer.iter().filter(|b| **b == 0 || **b == 3).count(),
         Score::Hash64(seed) => {
@@ -75,7 +80,7 @@ fn score_strategy() -> BoxedStrategy<Score> {
         2 => Just(Score::Rank),
         3 => any::<u64>().prop_map(Score::Perm),
         3 => any::<u64>().prop_map(Score::PermRc),
-        1 => any::<u16>().prop_map(Score::Const),
+        1 => prop_oneof![3 => any::<u16>(), 1 => Just(65535u16), 1 => Just(0u16)].prop_map(Score::Const),
         3 => (1u8..6).prop_map(Score::Mod),
         1 => Just(Score::AtCount),
         2 => any::<u64>().prop_map(Score::Hash64),
